@@ -41,18 +41,45 @@ static const int P_PEER_BASE = 300;   // its peer end on 300+d
 // the cross-descriptor order is the one the model assumes.  Any order is a legal kernel answer.
 static ola::io::EPoller *p_cur_ep = NULL;
 static bool p_desc_order = false;
+// user-data pointer -> fd, learnt from the poller's own epoll_ctl(ADD/MOD) calls (no poller internals)
+static std::map<void*, int> p_ptr_fd;
 
 static int p_fd_of(void *ptr) {
-  if (!p_cur_ep) return -1;
-  std::map<int, ola::io::EPollData*>::iterator it = p_cur_ep->m_descriptor_map.begin();
-  for (; it != p_cur_ep->m_descriptor_map.end(); ++it)
-    if (static_cast<void*>(it->second) == ptr) return it->first;
-  return -1;
+  std::map<void*, int>::const_iterator it = p_ptr_fd.find(ptr);
+  return it == p_ptr_fd.end() ? -1 : it->second;
 }
 struct p_ev_lt {
   bool operator()(const epoll_event &a, const epoll_event &b) const {
     int fa = p_fd_of(a.data.ptr), fb = p_fd_of(b.data.ptr);
     return p_desc_order ? fa > fb : fa < fb;
+  }
+};
+
+// Optional internal observations: compiled only if the (private) members still exist, so that an
+// internal refactoring of the pollers does not stop the property-level comparison.
+#define C16P_HAS_MEMBER(name) \
+  template <typename T> struct p_has_##name { \
+    template <typename U> static char test(decltype(&U::name)); \
+    template <typename U> static long test(...); \
+    static const bool value = sizeof(test<T>(0)) == sizeof(char); };
+C16P_HAS_MEMBER(m_descriptor_map)
+C16P_HAS_MEMBER(m_orphaned_descriptors)
+C16P_HAS_MEMBER(m_free_descriptors)
+C16P_HAS_MEMBER(m_read_descriptors)
+C16P_HAS_MEMBER(m_connected_read_descriptors)
+C16P_HAS_MEMBER(m_write_descriptors)
+template <bool B> struct p_ep_int { template <class E> static string get(E *) { return ""; } };
+template <> struct p_ep_int<true> {
+  template <class E> static string get(E *ep) {
+    return "em=" + vh::str(ep->m_descriptor_map.size()) + "." + vh::str(ep->m_orphaned_descriptors.size()) +
+           "." + vh::str(ep->m_free_descriptors.size()) + ";";
+  }
+};
+template <bool B> struct p_sel_int { template <class E> static string get(E *) { return ""; } };
+template <> struct p_sel_int<true> {
+  template <class E> static string get(E *sp) {
+    return "sm=" + vh::str(sp->m_read_descriptors.size()) + "." +
+           vh::str(sp->m_connected_read_descriptors.size()) + "." + vh::str(sp->m_write_descriptors.size()) + ";";
   }
 };
 
@@ -128,6 +155,7 @@ class p_run {
 
   ~p_run() {
     p_cur_ep = NULL;
+    p_ptr_fd.clear();
     delete m_poller;     // deletes delete_on_close descriptors that are still registered
     for (size_t d = 0; d < m_cfg.size(); d++) {
       if (m_cfg[d].conn) { if (!m_gone[d]) delete m_conn[d]; }
@@ -214,11 +242,13 @@ class p_run {
     for (size_t d = 0; d < m_cfg.size(); d++) o << (m_gone[d] ? "1" : "0");
     o << ";h" << tag << "=0;";
     if (m_ep) {
-      o << "em=" << m_ep->m_descriptor_map.size() << "." << m_ep->m_orphaned_descriptors.size() << "."
-        << m_ep->m_free_descriptors.size() << ";";
+      o << p_ep_int<p_has_m_descriptor_map<ola::io::EPoller>::value &&
+                    p_has_m_orphaned_descriptors<ola::io::EPoller>::value &&
+                    p_has_m_free_descriptors<ola::io::EPoller>::value>::get(m_ep);
     } else {
-      o << "sm=" << m_sel->m_read_descriptors.size() << "." << m_sel->m_connected_read_descriptors.size()
-        << "." << m_sel->m_write_descriptors.size() << ";";
+      o << p_sel_int<p_has_m_read_descriptors<ola::io::SelectPoller>::value &&
+                     p_has_m_connected_read_descriptors<ola::io::SelectPoller>::value &&
+                     p_has_m_write_descriptors<ola::io::SelectPoller>::value>::get(m_sel);
     }
     return o.str();
   }
@@ -286,5 +316,10 @@ extern "C" int __wrap_epoll_wait(int epfd, struct epoll_event *events, int maxev
   int n = __real_epoll_wait(epfd, events, maxevents, timeout);
   if (n > 1 && c16p::p_cur_ep) std::sort(events, events + n, c16p::p_ev_lt());
   return n;
+}
+extern "C" int __real_epoll_ctl(int epfd, int op, int fd, struct epoll_event *event);
+extern "C" int __wrap_epoll_ctl(int epfd, int op, int fd, struct epoll_event *event) {
+  if (event && (op == EPOLL_CTL_ADD || op == EPOLL_CTL_MOD)) c16p::p_ptr_fd[event->data.ptr] = fd;
+  return __real_epoll_ctl(epfd, op, fd, event);
 }
 #endif  // C16_HARNESS_POLLER_H_
